@@ -475,6 +475,9 @@ func main() {
 		// a directive that occurs twice: browsers honour the first occurrence only
 		{"script-src 'nonce-first'; img-src *; script-src 'nonce-second' 'self'", "first"},
 		{"default-src 'none'; script-src 'self' 'nonce-first'; style-src 'nonce-zzz'; script-src 'nonce-second'", "first"},
+		// nonces in other directives in front of script-src (a browser picks script-src by name, wherever it stands)
+		{"default-src 'self' 'nonce-dflt'; img-src *; script-src 'self' 'nonce-abc123'", "abc123"},
+		{"style-src 'nonce-zzz'; object-src 'nonce-obj'; script-src 'nonce-abc123'; default-src 'nonce-dflt'", "abc123"},
 	}
 	var configs []config
 	for _, e := range encs {
